@@ -23,7 +23,7 @@ use rand::{rngs::StdRng, seq::SliceRandom, Rng, SeedableRng};
 use serde_json::{json, Value};
 use tokio::io::{AsyncReadExt, AsyncWriteExt};
 use vharness::{catch, Opts, Out, Prop};
-use zksync_concurrency::{ctx, limiter, net, sync};
+use zksync_concurrency::{ctx, limiter, net, scope, sync};
 use zksync_consensus_engine::testonly::TestEngine;
 use zksync_consensus_network as network;
 use zksync_consensus_network::{
@@ -680,13 +680,82 @@ struct PoolState {
 struct LiveConn {
     net: Net,
     dir: Dir,
-    task: tokio::task::JoinHandle<anyhow::Result<()>>,
+    task: Job,
     /// the remote end; dropping it ends the connection
     stream: Option<hk::Stream>,
     /// the TCP address the node's statistics record for this connection
     addr: SocketAddr,
     /// `maintain_connection` never returns by itself
     abort_after_close: bool,
+}
+
+/// One admission path of the node running as a task. The crate's scopes must not be dropped half-way (they abort
+/// the process), so a task is never aborted: it runs inside a `scope` whose main task waits for `stop`; when that
+/// fires the scope cancels the context of the admission path, which then returns by itself.
+struct Job {
+    handle: tokio::task::JoinHandle<Option<anyhow::Result<()>>>,
+    stop: Option<tokio::sync::oneshot::Sender<()>>,
+}
+
+enum JobKind {
+    GossipIn(hk::Stream),
+    ConsensusIn(hk::Stream),
+    GossipOut(node::PublicKey, SocketAddr),
+    ConsensusOut(validator::PublicKey),
+}
+
+fn spawn_job(ctx: &'static ctx::Ctx, node: Arc<hk::Node>, kind: JobKind) -> Job {
+    let (stop, stop_rx) = tokio::sync::oneshot::channel::<()>();
+    let handle = tokio::spawn(async move {
+        let res: std::sync::Mutex<Option<anyhow::Result<()>>> = std::sync::Mutex::new(None);
+        let (done, done_rx) = tokio::sync::oneshot::channel::<()>();
+        let _: anyhow::Result<()> = scope::run!(ctx, |ctx, s| async {
+            s.spawn_bg::<()>(async {
+                let r = match kind {
+                    JobKind::GossipIn(st) => node.gossip_run_inbound(ctx, st).await,
+                    JobKind::ConsensusIn(st) => node.consensus_run_inbound(ctx, st).await,
+                    JobKind::GossipOut(pk, addr) => node.gossip_run_outbound(ctx, &pk, addr).await,
+                    JobKind::ConsensusOut(pk) => node.consensus_maintain_connection(ctx, &pk).await,
+                };
+                *res.lock().unwrap() = Some(r);
+                let _ = done.send(());
+                Ok(())
+            });
+            tokio::select! {
+                _ = stop_rx => {}
+                _ = done_rx => {}
+            }
+            Ok(())
+        })
+        .await;
+        let r = res.lock().unwrap().take();
+        r
+    });
+    Job { handle, stop: Some(stop) }
+}
+
+impl Job {
+    /// Cancels the admission path (if it is still running) and waits for it to return.
+    async fn stop(mut self) -> String {
+        drop(self.stop.take());
+        match tokio::time::timeout(Duration::from_secs(10), &mut self.handle).await {
+            Ok(Ok(Some(Err(e)))) => format!("{e:#}"),
+            Ok(Ok(Some(Ok(())))) => "returned Ok".into(),
+            Ok(Ok(None)) => "no result".into(),
+            Ok(Err(e)) => format!("task: {e}"),
+            Err(_) => "still running".into(),
+        }
+    }
+    /// Waits for the admission path to return by itself.
+    async fn join(&mut self) -> String {
+        match tokio::time::timeout(Duration::from_secs(10), &mut self.handle).await {
+            Ok(Ok(Some(Err(e)))) => format!("{e:#}"),
+            Ok(Ok(Some(Ok(())))) => "returned Ok".into(),
+            Ok(Ok(None)) => "no result".into(),
+            Ok(Err(e)) => format!("task: {e}"),
+            Err(_) => "still running".into(),
+        }
+    }
 }
 
 struct NodeState {
@@ -1161,9 +1230,12 @@ impl C12 {
             "node_new" => {
                 // end whatever the previous case left running
                 if let Some(old) = self.node.take() {
-                    for (_, c) in old.live {
-                        c.task.abort();
-                    }
+                    self.rt.block_on(async {
+                        for (_, mut c) in old.live {
+                            drop(c.stream.take());
+                            c.task.stop().await;
+                        }
+                    });
                 }
                 let me = op["me"].as_u64().unwrap() as usize;
                 let vme = op["vme"].as_u64().map(|x| x as usize);
@@ -1220,15 +1292,13 @@ impl C12 {
                 let res = self.rt.block_on(async {
                     tokio::time::timeout(OP_TIMEOUT, async {
                         // establish the session: the node holds one end (as a task running the real admission path)
-                        let (task, rs, addr, abort_after_close): (tokio::task::JoinHandle<anyhow::Result<()>>, hk::Stream, SocketAddr, bool) = match dir {
+                        let (task, rs, addr, abort_after_close): (Job, hk::Stream, SocketAddr, bool) = match dir {
                             Dir::In => {
                                 let (c, s) = pipe(ctx, main, net.endpoint()).await?;
                                 let addr = c.local_addr()?;
-                                let task = tokio::spawn(async move {
-                                    match net {
-                                        Net::Gossip => node.gossip_run_inbound(ctx, s).await,
-                                        Net::Consensus => node.consensus_run_inbound(ctx, s).await,
-                                    }
+                                let task = spawn_job(ctx, node, match net {
+                                    Net::Gossip => JobKind::GossipIn(s),
+                                    Net::Consensus => JobKind::ConsensusIn(s),
                                 });
                                 (task, c, addr, false)
                             }
@@ -1237,10 +1307,7 @@ impl C12 {
                                 let l: &mut Listener = if loopback { public } else { aux.iter_mut().find(|l| !busy.contains(&l.addr)).expect("a free dial target") };
                                 let addr = l.addr;
                                 let task = match net {
-                                    Net::Gossip => {
-                                        let pk = w.nkeys[peer].public();
-                                        tokio::spawn(async move { node.gossip_run_outbound(ctx, &pk, addr).await })
-                                    }
+                                    Net::Gossip => spawn_job(ctx, node, JobKind::GossipOut(w.nkeys[peer].public(), addr)),
                                     Net::Consensus => {
                                         if own.is_none() {
                                             // no consensus network: nothing dials
@@ -1249,8 +1316,7 @@ impl C12 {
                                         if !loopback {
                                             node.announce(&w.vkeys[peer], addr, ctx.now_utc()).await;
                                         }
-                                        let pk = w.vkeys[peer].public();
-                                        tokio::spawn(async move { node.consensus_maintain_connection(ctx, &pk).await })
+                                        spawn_job(ctx, node, JobKind::ConsensusOut(w.vkeys[peer].public()))
                                     }
                                 };
                                 // accept the node's dial (skipping stale connections of earlier dials)
@@ -1269,7 +1335,7 @@ impl C12 {
                         let mut pl = match pl {
                             Ok(pl) => pl,
                             Err(e) => {
-                                task.abort();
+                                task.stop().await;
                                 return Err(e);
                             }
                         };
@@ -1293,7 +1359,7 @@ impl C12 {
                     Ok(Ok(x)) => x,
                 };
                 let ns = self.node.as_mut().unwrap();
-                let Some((task, mut pl, addr, abort_after_close, admitted, _sids)) = r else {
+                let Some((mut task, mut pl, addr, abort_after_close, admitted, _sids)) = r else {
                     let snap = ns.snapshot(w);
                     self.monitor_node(out, op, &snap);
                     return json!({"out": "refused", "hs_sent": false, "pools": pools_json(&snap)});
@@ -1321,22 +1387,11 @@ impl C12 {
                     why = String::new();
                 } else {
                     drop(pl.stream.take());
-                    if abort_after_close {
-                        task.abort();
-                        why = "?".into();
-                    } else {
-                        // the admission path returns; its error text is a diagnostic
-                        why = self.rt.block_on(async {
-                            match tokio::time::timeout(Duration::from_secs(10), task).await {
-                                Ok(Ok(Err(e))) => format!("{e:#}"),
-                                Ok(Ok(Ok(()))) => "returned Ok".into(),
-                                Ok(Err(e)) => format!("task: {e}"),
-                                Err(_) => "still running".into(),
-                            }
-                        });
-                        if why == "still running" {
-                            out.oracle_fail("harness/hang", "a refused connection's task did not return", op.clone());
-                        }
+                    // a refused attempt returns by itself (its error text is a diagnostic), except `maintain_connection`,
+                    // which keeps redialling until its context is cancelled
+                    why = self.rt.block_on(async { if abort_after_close { task.stop().await } else { task.join().await } });
+                    if why == "still running" {
+                        out.oracle_fail("harness/hang", "a refused connection's task did not return", op.clone());
                     }
                 }
                 for (site, what) in fails {
@@ -1378,11 +1433,9 @@ impl C12 {
                             }
                             tokio::time::sleep(Duration::from_millis(1)).await;
                         }
-                        lc.task.abort();
-                        let _ = lc.task.await;
-                        ok
+                        ok && lc.task.stop().await != "still running"
                     } else {
-                        tokio::time::timeout(Duration::from_secs(10), &mut lc.task).await.is_ok()
+                        lc.task.join().await != "still running"
                     }
                 });
                 let _ = (lc.net, lc.dir);
